@@ -229,6 +229,32 @@ fn b(x: bool) -> &'static str {
     }
 }
 
+/// a `Hasher` that records which methods are called with which values: the observable "what is fed to the hasher"
+#[derive(Default)]
+struct RecordingHasher(Vec<String>);
+impl Hasher for RecordingHasher {
+    fn finish(&self) -> u64 { 0 }
+    fn write(&mut self, bytes: &[u8]) { self.0.push(format!("bytes{}:{}", bytes.len(), tohex(bytes))); }
+    fn write_u8(&mut self, i: u8) { self.0.push(format!("u8:{}", i)); }
+    fn write_u16(&mut self, i: u16) { self.0.push(format!("u16:{}", i)); }
+    fn write_u32(&mut self, i: u32) { self.0.push(format!("u32:{}", i)); }
+    fn write_u64(&mut self, i: u64) { self.0.push(format!("u64:{}", i)); }
+    fn write_u128(&mut self, i: u128) { self.0.push(format!("u128:{}", i)); }
+    fn write_usize(&mut self, i: usize) { self.0.push(format!("usize:{}", i)); }
+    fn write_i8(&mut self, i: i8) { self.0.push(format!("i8:{}", i)); }
+    fn write_i16(&mut self, i: i16) { self.0.push(format!("i16:{}", i)); }
+    fn write_i32(&mut self, i: i32) { self.0.push(format!("i32:{}", i)); }
+    fn write_i64(&mut self, i: i64) { self.0.push(format!("i64:{}", i)); }
+    fn write_i128(&mut self, i: i128) { self.0.push(format!("i128:{}", i)); }
+    fn write_isize(&mut self, i: isize) { self.0.push(format!("isize:{}", i)); }
+}
+
+fn feed_of<T: Hash>(t: &T) -> String {
+    let mut h = RecordingHasher::default();
+    t.hash(&mut h);
+    h.0.join(",")
+}
+
 fn hash_of<T: Hash>(t: &T) -> u64 {
     let mut h = DefaultHasher::new();
     t.hash(&mut h);
@@ -483,6 +509,11 @@ fn run(mode_tok: &str, t: &[&str]) -> String {
                 }
             }
             b(same).to_string()
+        }
+        "hashfeed" => {
+            // the exact sequence of `Hasher` calls: must be that of the `(numerator, denominator)` pair, two `write_i128`
+            let d = dec(t[1], t[2]);
+            feed_of(&d)
         }
         "hasheq" => {
             let (x, y) = (dec(t[1], t[2]), dec(t[3], t[4]));
